@@ -122,3 +122,60 @@ func (e *env) leavesWhileBackendSilent(gate chan struct{}) {
 	// the census is taken while the backend is still silent
 	e.settle("after clients left while the backend stayed silent")
 }
+
+// acceptedDuringDrain (added after seeded change C11-N): an HTTP/1.1 exchange is in flight, the server context is cancelled, and
+// while the HTTP/1.1 side drains (the listening socket is still open) new clients connect and say nothing. Every
+// connection the proxy accepts in that window must be closed by the proxy. Ends this environment's proxy.
+func (e *env) acceptedDuringDrain(gate chan struct{}) {
+	run := e.run
+	s, err := rig.Dial(e.px.Addr, []string{"http/1.1"}, nil, nil)
+	if err != nil {
+		run.Add("dial_failed", 1)
+		return
+	}
+	tag := "C11-drain-" + e.name
+	go s.Do("GET", "/drain", "front.example", [][2]string{{rig.TagHeader, tag}, {"X-Verif-Detach", "1"}}, nil, 60*time.Second)
+	if _, ok := e.be.Wait(tag, 10*time.Second); !ok {
+		run.Add("silent_backend_request_never_arrived", 1)
+		s.Close()
+		return
+	}
+	e.px.Cancel()
+	time.Sleep(30 * time.Millisecond)
+	var wg sync.WaitGroup
+	for k := 0; k < run.Pick(4, 12); k++ {
+		wg.Add(1)
+		go func(k int) {
+			defer wg.Done()
+			time.Sleep(time.Duration(k*15) * time.Millisecond)
+			sc := scen{Kind: "accepted-during-shutdown", Step: fmt.Sprintf("client %d, silent", k), Env: e.name}
+			dialAt := time.Now()
+			c, err := dialTCP(e.px.Addr)
+			if err != nil {
+				run.Add("late_clients_refused", 1) // the listening socket is gone already: nothing was accepted
+				return
+			}
+			defer c.Close()
+			if k%2 == 1 {
+				stallAt(c, "after-clienthello", nil)
+			}
+			ac := e.find(c.LocalAddr(), dialAt, time.Second)
+			if ac == nil {
+				run.Add("late_clients_never_accepted", 1)
+				return
+			}
+			run.Eval(1)
+			run.Add("connections_accepted_during_shutdown", 1)
+			run.Distinct(fmt.Sprintf("%+v", sc))
+			select {
+			case <-ac.Done:
+			case <-time.After(W):
+				run.Violation("not-closed-when-accepted-during-shutdown", sc, "a connection accepted %v after the server context was cancelled (an HTTP/1.1 exchange was still draining) has not been closed by the proxy %v later", ac.AcceptAt.Sub(dialAt).Round(time.Millisecond), W)
+			}
+		}(k)
+	}
+	wg.Wait()
+	close(gate) // the backend answers, the in-flight exchange completes, the drain can finish
+	time.Sleep(50 * time.Millisecond)
+	s.Close()
+}
